@@ -7,6 +7,12 @@ tie:     (i)  serde_json::to_string(v) bytes = print_json (to_json v) for genera
          (ii) deserialisation answers (value or error) of model and implementation on the
               implementation's own texts, on re-spaced texts and on AST-level mutants
               (aliases, missing / duplicate / unknown fields, seq form, edited numbers and tags ...),
+         (ii-b) the same on NON-CANONICAL and NEAR-MISS ID SPELLINGS inside the JSON (jsn.id_spellings): upper / mixed-case
+              hex, simple / braced / urn uuids, lower / mixed-case ulids, ulids whose first character exceeds '7' (130 bits:
+              the two top bits are dropped, so 'F...' spells the same id as '7...'), wrong length, bad character, misplaced
+              hyphen, brace and urn-prefix faults — as order ids, taker / maker / filled ids and (Uuid only) transaction ids;
+              a python oracle of the two crates' formats classifies each spelling (same id / other id / error) and model and
+              implementation must both agree with it,
          (iii) a package built by the implementation still validates after the trip.
 judge (applied to the IMPLEMENTATION, independent of the model): from_str(to_string(v)) == v for
          every generated value of every type (level: same price / listing, aggregates = sums),
@@ -116,6 +122,7 @@ def run(tier, seed, replay=None):
     evals = 0
     kinds_seen = {}
     verdicts = dict(both_ok=0, both_err=0)
+    spell_bad, spell_seen, spell_cls = [], {}, {}
     samples = []
 
     if replay:
@@ -259,13 +266,59 @@ def run(tier, seed, replay=None):
         for (ty, t, k), x, y in zip(mut_cases, ai, am):
             if ty == "stats":
                 x, y = mask_stats(x, t), mask_stats(y, t)
-            kinds_seen[k.split("+")[0]] = kinds_seen.get(k.split("+")[0], 0) + 1
+            kk = k.split("+")[0].split(":")[0]
+            kinds_seen[kk] = kinds_seen.get(kk, 0) + 1
             if x != y:
                 dec_bad.append(dict(type=ty, text_hex=hx(t), text=t[:400], implementation=x, model=y, mutation=k, profile=prof))
             elif x.startswith("ok"):
                 verdicts["both_ok"] += 1
             else:
                 verdicts["both_err"] += 1
+
+        # ---- (ii-b) id spellings: every id text of the library's own JSON, respelled
+        sp_cases = []          # (type, text, kind, class, base answer)
+        ID_TYPES = ["oid", "uuid", "order", "update", "tx", "txlist", "result", "data", "snapshot", "package", "level", "queue"]
+        n_sp_vals = 0 if replay else (40 if quick else 250)
+        per_node = 10 if quick else 14
+        for ty in ID_TYPES:
+            src_ty = {"level": "data", "queue": None}.get(ty, ty)
+            if src_ty:
+                vals = cases.get(src_ty, [])[:n_sp_vals]
+            else:
+                vals = [jsn.rlist(rng, jsn.rorder, 3) for _ in range(n_sp_vals // 2)]
+                src_ty = "queue"
+            for v in vals:
+                a = impl.ask("TOJSON %s %s" % (src_ty, v))
+                if not a.startswith("ok "):
+                    continue
+                base = impl.ask("OFJSON %s %s" % (ty, a[3:]))
+                ast = jsn.parse_text(unhx(a[3:]).decode())
+                nodes = jsn.id_nodes(ast, top=ty)
+                if not nodes:
+                    continue
+                leaf = ty in ("oid", "uuid")
+                for (path, want) in (nodes if leaf else rng.sample(nodes, min(2, len(nodes)))):
+                    orig = jsn.get(ast, path)
+                    sp = jsn.id_spellings(rng, orig)
+                    for (kind, t) in (sp if leaf else rng.sample(sp, min(per_node, len(sp)))):
+                        sp_cases.append((ty, jsn.dump(jsn.put(ast, path, t)), kind + ("@txid" if want == "uuid" and not leaf else ""),
+                                         jsn.classify(orig, t, want), base))
+        cmds = ["OFJSON %s %s" % (ty, hx(t)) for (ty, t, _, _, _) in sp_cases]
+        ai = impl.ask_many(cmds)
+        am = model.ask_many(cmds)
+        evals += len(cmds)
+        for (ty, t, k, cls, base), x, y in zip(sp_cases, ai, am):
+            spell_seen[k] = spell_seen.get(k, 0) + 1
+            spell_cls[cls] = spell_cls.get(cls, 0) + 1
+            if x != y:
+                spell_bad.append(dict(type=ty, text_hex=hx(t), text=t[:400], implementation=x, model=y, mutation="id spelling " + k,
+                                      oracle=cls, profile=prof))
+            elif (cls == "same" and x != base) or (cls == "reject" and x != "err") or \
+                    (cls == "other" and ty in ("oid", "uuid", "order", "update", "tx") and (not x.startswith("ok ") or x == base)):
+                # model and implementation agree with each other but not with the python oracle of the formats
+                spell_bad.append(dict(type=ty, text_hex=hx(t), text=t[:400], implementation=x, model=y, mutation="id spelling " + k,
+                                      oracle=cls, unmodified_text_reads_as=base, profile=prof,
+                                      why="both disagree with the generator's own reading of the uuid / ulid formats"))
         impl.close()
 
     if tier == "thorough" and not replay:
@@ -276,17 +329,25 @@ def run(tier, seed, replay=None):
     ck.cov["distinct_nontrivial"] = sum(len(set(v)) for v in cases.values())
     ck.cov["rule"] = ("values of every serde type from boundary-heavy generators (0, 1, 2^53+1, 2^63, u64::MAX, i64::MIN/MAX, nil and "
                       "all-ones ids of both formats, GTD payloads, empty and multi-element lists); per value: to_string on model and "
-                      "implementation, from_str of that text on both, then re-spaced and AST-mutated texts on both; non-trivial = distinct values")
+                      "implementation, from_str of that text on both, then re-spaced and AST-mutated texts on both, then every id text of the "
+                      "library's JSON respelled (non-canonical accepted forms, 130-bit ulid aliases, near misses); non-trivial = distinct values")
     ck.cov["samples"] = samples
     ck.cov["exhaustive"] = False
     ck.extra["trusted_base"] = TRUSTED_BASE + jsn.TRUSTED_JSON
     ck.cov["traces_validated_against_impl"] = evals
     ck.extra["input_distribution"] = dict(values_per_type={k: len(v) for k, v in cases.items()}, mutation_kinds=kinds_seen,
-                                          mutant_verdicts=verdicts, profiles=profiles, sha256_calls_for_model=model.digests)
+                                          mutant_verdicts=verdicts, id_spelling_kinds=spell_seen, id_spelling_classes=spell_cls,
+                                          profiles=profiles, sha256_calls_for_model=model.digests)
     ck.oblige("correspondence (i): serde_json::to_string(v) = print_json (to_json v) on every generated value", not enc_bad,
               "%d disagreements" % len(enc_bad))
     ck.oblige("correspondence (ii): from_str answers (value or error) agree on library texts, re-spaced texts and AST mutants",
               not dec_bad, "%d disagreements" % len(dec_bad))
+    if not replay:
+        ck.oblige("correspondence (ii-b): from_str answers agree (with each other and with the python oracle of the uuid / ulid formats) "
+                  "on %d non-canonical / near-miss id spellings inside JSON (%d kinds)" % (sum(spell_seen.values()), len(spell_seen)),
+                  not spell_bad and len(spell_seen) >= 60 and all(spell_cls.get(c, 0) > 0 for c in ("same", "other", "reject")),
+                  "%d disagreements, %d kinds, classes %s" % (len(spell_bad), len(spell_seen), spell_cls))
+    dec_bad = dec_bad + spell_bad
     ck.oblige("judge: from_str(to_string(v)) == v on the implementation, re-read packages validate", not judge_bad,
               "%d failures" % len(judge_bad))
 
